@@ -109,6 +109,12 @@ def model_graph(prog, entry):
                 g = funcs[it["f"]]
                 if g["kind"] == "data":
                     acc_kept.append((g["path"], it["f"], False))
+                elif g["kind"] == "class":
+                    # a class instantiated with arguments is a call with run-time arguments for dds (constructor
+                    # arguments are never analysed): the kept nodes reached below it carry its call-order dependence
+                    sub = []
+                    region(it["f"], sub, acc_loads, order)
+                    acc_kept.extend((p, fn_, True) for (p, fn_, _) in sub)
                 else:
                     region(it["f"], acc_kept, acc_loads, order)
             elif t == "load":
